@@ -4,5 +4,6 @@ CONSTANTS
   K <- TrK
   M <- TrM
   Variant = "as_coded"
+  Direct <- TrDirect
   GenHist = FALSE
 CHECK_DEADLOCK FALSE
